@@ -53,6 +53,23 @@ def run(ctx):
                       "channel is panic!, is not reachable from a session thread")
     ctx.guard("R12.1", lambda: C11.audit_edges(ctx, "R12.1", F, edges, "panic_audit_C12.json", "platform-thread"))
 
+    def audit_premises():
+        # the audited `executableContent.get(&id).unwrap()` edges of the data models rest on "callers filter the null id 0": the one
+        # caller that hands an id through unchecked by its own callers (finalize, transition content) is Fsm::executeContent
+        fe = F.fn("fsm::Fsm::executeContent")
+        calls = fe.calls("datamodel::Datamodel::executeContent")
+        ctx.exact("R12.1", "Datamodel::executeContent calls in Fsm::executeContent", len(calls), 1)
+        for c in calls:
+            ok = False
+            for a, pol in hirq.guard_atoms(fe, c):
+                if pol is None or not isinstance(a, dict) or a.get("k") != "bin":
+                    continue
+                if param_index(fe, a["l"]) == 2 and const_eval(a["r"]) == 0 and ((a["op"] in ("Ne", "Gt") and pol) or (a["op"] == "Eq" and not pol)):
+                    ok = True
+            ctx.ob("R12.1", "premise|Fsm::executeContent filters the null content id", ok, line_of(c),
+                   "datamodel.executeContent(self, contentId) is %sguarded by contentId != 0" % ("" if ok else "NOT "))
+    ctx.guard("R12.1", audit_premises)
+
     def xml_region():
         full = cg.reachable(set(roots.get("session", ())) | set(roots.get("timer", ())))
         entries = defaultdict(list)
